@@ -239,6 +239,10 @@ var (
 	coverMemo = map[int][]sweepBase{}
 )
 
+// sweepStride / sweepOffset thin a sweep out: only every sweepStride-th unit (a leaf or an inner node of a base)
+// is enumerated. 1 = everything. Set (and reset) by the caller around a sweep.
+var sweepStride, sweepOffset = 1, 0
+
 // sweepVariant post-processes a mutant tree (after the single edit); nil = the edit alone.
 type sweepVariant struct {
 	Name  string
@@ -350,7 +354,7 @@ func sweepBases(rec *stats.Rec, cover []sweepBase, extra []sweepVariant, withExp
 				continue
 			}
 			unit++
-			if !stats.Mine(unit) {
+			if !stats.Mine(unit/sweepStride) || unit%sweepStride != sweepOffset%sweepStride {
 				continue
 			}
 			ne := gen.LeafEditCount(root.Leaves()[li])
@@ -368,7 +372,7 @@ func sweepBases(rec *stats.Rec, cover []sweepBase, extra []sweepVariant, withExp
 				continue
 			}
 			unit++
-			if !stats.Mine(unit) {
+			if !stats.Mine(unit/sweepStride) || unit%sweepStride != sweepOffset%sweepStride {
 				continue
 			}
 			for e := 0; e < gen.NumInnerEdits; e++ {
